@@ -22,6 +22,10 @@ import (
 type c15Other struct {
 	Shape gen.Shape `json:"shape"`
 	Recs  []gen.Rec `json:"recs"`
+	// SameSchema: this earlier transform uses the very Schema OBJECT of the measured transform (a Schema may be
+	// shared and reused); Cut > 0 truncates its input at that offset, so that it ends in the middle of a record.
+	SameSchema bool `json:"same_schema,omitempty"`
+	Cut        int  `json:"cut,omitempty"`
 }
 
 type c15Case struct {
@@ -41,8 +45,12 @@ func genC15(t *rapid.T) c15Case {
 	n := rapid.IntRange(0, 5).Draw(t, "nothers")
 	for i := 0; i < n; i++ {
 		o := c15Other{}
-		if rapid.IntRange(0, 3).Draw(t, fmt.Sprintf("o%dsame", i)) == 0 {
+		if rapid.IntRange(0, 2).Draw(t, fmt.Sprintf("o%dsame", i)) == 0 {
 			o.Shape = c.Shape // same schema, other data: fills the same cache keys
+			o.SameSchema = rapid.Bool().Draw(t, fmt.Sprintf("o%dsameObj", i))
+			if rapid.Bool().Draw(t, fmt.Sprintf("o%dcut", i)) {
+				o.Cut = rapid.IntRange(1, 400).Draw(t, fmt.Sprintf("o%dcutAt", i))
+			}
 		} else {
 			o.Shape = gen.DrawShape(t, gen.ShapeOpts{})
 		}
@@ -131,20 +139,47 @@ func checkC15(c c15Case) obs.Result {
 	schema := c.Shape.Schema()
 	in := c.Shape.Render(c.Recs)
 	classes := []string{"format=" + c.Shape.Format, fmt.Sprintf("xform=%d", c.Shape.Xform)}
-	first, err := c15Run(schema, in)
+	shared, err := run.NewSchema(schema)
 	if err != nil {
-		return obs.Result{Excluded: "no terminal result / schema rejected: " + err.Error()}
+		return obs.Result{Excluded: "schema rejected: " + err.Error()}
 	}
-	// other transforms in the same process: fill pools and caches, advance the ID counter
+	onShared := func(input []byte) ([]run.Step, error) {
+		return run.Transcript(shared, bytes.NewReader(input), run.Opts{InputLen: len(input), WithRaw: true})
+	}
+	first, err := onShared(in)
+	if err != nil {
+		return obs.Result{Excluded: "no terminal result: " + err.Error()}
+	}
+	// other transforms in the same process: fill pools and caches, advance the ID counter; some of them use the
+	// very same Schema object, some of those on an input that ends in the middle of a record
 	for _, o := range c.Others {
 		oin := o.Shape.Render(o.Recs)
+		if o.Cut > 0 && len(oin) > 0 {
+			oin = oin[:o.Cut%len(oin)]
+		}
+		if o.SameSchema {
+			if _, err := onShared(oin); err != nil {
+				return obs.Result{Excluded: "other transform has no terminal result"}
+			}
+			classes = append(classes, "shared-schema-object")
+			if o.Cut > 0 {
+				classes = append(classes, "shared-schema-object+truncated-input")
+			}
+			continue
+		}
 		if _, err := c15Run(o.Shape.Schema(), oin); err != nil {
 			return obs.Result{Excluded: "other transform has no terminal result"}
 		}
 	}
-	second, err := c15Run(schema, in)
+	second, err := onShared(in)
 	if err != nil {
 		return obs.Violationf("second run of the same transform does not terminate: %v", err)
+	}
+	// and a run on a freshly parsed Schema must agree with the reused one
+	if fresh, err := c15Run(schema, in); err != nil {
+		return obs.Violationf("run on a freshly parsed schema does not terminate: %v", err)
+	} else if d := run.Diff(first, fresh, run.Step.KeyExact); d != "" {
+		return obs.Violationf("a freshly parsed Schema gives other results than the reused Schema object (A reused, B fresh):\n%s\ninput %q", d, in)
 	}
 	if d := run.Diff(first, second, run.Step.KeyExact); d != "" {
 		return obs.Violationf("repeating the transform after %d other transforms changes the results (A first run, B second run):\n%s\ninput %q", len(c.Others), d, in)
